@@ -386,7 +386,56 @@ class Interp:
             if isinstance(av, Frame):
                 return None
             return True
+        self._number_truth(av, node, fr)
         return None
+
+    _BOOLISH = ("eq", "ne", "lt", "le", "and", "or", "not", "ite")
+    _BOOL_CALLS = ("isin", "in", "in_labels", "hasattr", "isinstance", "callable", "nrows", "empty", "reduce:any", "reduce:all", "os.path.isfile", "os.path.exists",
+                   "numpy.isnan", "numpy.isfinite", "numpy.isclose", "numpy.allclose", "numpy.array_equal", "numpy.any", "numpy.all", "len", "bool",
+                   "builtins.bool", "builtins.len", "str.startswith", "str.endswith", "str.isdigit", ".startswith", ".endswith", ".isdigit", ".any", ".all",
+                   ".isna", ".notna", ".isnull", ".empty", "contains")
+
+    def _number_truth(self, av, node, fr):
+        """a value that is evidently a number of the data (an element or a reduction of a column / an array, arithmetic on such, a
+        position) is used as a truth value: 0 is a legitimate number, and it is the one that takes the other branch"""
+        if not isinstance(av, (Val, Unk)) or getattr(av, "given", False):
+            return
+        t = to_term(av)
+        # what is tested, with negations stripped
+        while t.op == "not":
+            t = t.args[0]
+        if t.op in self._BOOLISH:
+            return
+        head = str(t.args[0]) if t.op == "call" and t.args else ""
+        if t.op == "call" and (head in self._BOOL_CALLS or head.startswith(("is", "has", "str.", "re."))):
+            if not (head in (".any", "reduce:any", "numpy.any") and getattr(av, "any_of_positions", False)):
+                return
+        numeric = self._evidently_numeric(t) or (t.op == "call" and head in (".any", "reduce:any", "numpy.any")) \
+            or getattr(av, "scalar_pos", False) or getattr(av, "pos_of", None) is not None
+        if numeric:
+            self.record("typing", "number-truth", [av], {}, node)
+
+    numeric_syms = ()  # symbols the obligation declares to be numbers / arrays of numbers (see harness.numbers)
+
+    def _evidently_numeric(self, t, depth=0):
+        """is the term a number of the data by construction?  arithmetic, a column of a particle table, a position, or an element /
+        reduction of such; an element of an array of unknown content (it may be a mask) is not"""
+        if depth > 12:
+            return False
+        if t.op in ("add", "sub", "mul", "div", "mod", "floordiv", "neg", "pow"):
+            return True
+        if t.op == "sym":
+            n = str(t.args[0])
+            return n in self.numeric_syms or n.startswith("a:") or n.startswith("b:")
+        if t.op != "call" or not t.args:
+            return False
+        head = str(t.args[0])
+        if head in ("col", "enum_index", "where", "argsort", "len", "nrows"):
+            return head in ("col", "enum_index", "where", "argsort")
+        if head in ("elem", "rowelem", "each", "item", "at", "column", "sel", "getitem", "reduce:max", "reduce:min", "reduce:sum", "reduce:mean", "unique",
+                    "numpy.asarray", "numpy.array", "vec") and len(t.args) > 1 and hasattr(t.args[1], "op"):
+            return self._evidently_numeric(t.args[1], depth + 1)
+        return False
 
     def exec_if(self, st, fr):
         cond = self.eval(st.test, fr)
@@ -700,6 +749,7 @@ class Interp:
             if a.space is not b.space:
                 f.space = Space("join", parent=None, how="join")
                 f.space.alts = (a.space, b.space)
+                f.space.cond = cterm
             return f
         if isinstance(a, Obj) and isinstance(b, Obj) and a.cls == b.cls:
             o = Obj(a.cls, {})
@@ -890,6 +940,8 @@ class Interp:
 
     def e_UnaryOp(self, node, fr):
         v = self.eval(node.operand, fr)
+        if isinstance(node.op, ast.Not):
+            self._number_truth(v, node.operand, fr)  # `not x` uses x as a truth value
         return self.lib.unop(self, node.op, v, node)
 
     def e_BinOp(self, node, fr):
@@ -907,6 +959,8 @@ class Interp:
         for i, vn in enumerate(node.values):
             v = self.eval(vn, fr)
             last = i == n - 1
+            if not last:
+                self._number_truth(v, vn, fr)  # `x and ...` / `x or default`: x is used as a truth value
             k = self.truth(v, vn, fr) if (is_pyconst(v) or isinstance(v, (Seq, DictV))) else None
             if k is not None:
                 decisive = (opn == "and" and k is False) or (opn == "or" and k is True)
@@ -964,6 +1018,10 @@ class Interp:
             self.assign(gen.target, elem, sub, node)
             self.loop_depth += 1
             try:
+                for cnd in gen.ifs:
+                    # a filter over an unknown number of elements: evaluated for what it tests (typed rules); the result is a selection
+                    self.truth(self.eval(cnd, sub), cnd, sub)
+                    self.record("filter", "comprehension", [it], {}, cnd)
                 if len(gens) > 1:
                     out2, v, _ = self._comp_level(node, gens[1:], sub, elt_fn)
                     if out2 is not None:
@@ -996,8 +1054,14 @@ class Interp:
     def e_ListComp(self, node, fr):
         out, gen, it = self._comp(node, fr, lambda sub: self.eval(node.elt, sub))
         if out is None:
-            u = Unk(call("listcomp", to_term(gen), to_term(it)), space=getattr(it, "space", None), why="comprehension")
+            sp_ = getattr(it, "space", None)
+            filtered = any(g.ifs for g in node.generators)
+            if filtered:
+                # a selection of the elements: fewer rows, other positions
+                sp_ = Space("comprehension filter", parent=sp_, how="filter") if sp_ is not None else None
+            u = Unk(call("listcomp_if" if filtered else "listcomp", to_term(gen), to_term(it)), space=sp_, why="comprehension")
             u.elem = gen
+            u.filtered = filtered
             return u
         return Seq(out, "list")
 
